@@ -582,6 +582,12 @@ struct Lower
                 QualType UT = C.getCorrespondingUnsignedType(BO->getType());
                 return "((" + ctype(BO->getType()) + ")(((" + ctype(UT) + ")" + rv(BO->getLHS()) + ") << " + rv(BO->getRHS()) + "))";
             }
+            if(BO->isRelationalOp() && BO->getLHS()->getType()->isPointerType() && BO->getRHS()->getType()->isPointerType())
+            {
+                // flat address space: relational comparison of pointers compares addresses (sbepp compares computed, possibly
+                // out-of-object pointers inside its own size checks; that is not an access)
+                return "((_Bool)(((unsigned long)" + rv(BO->getLHS()) + ") " + op + " ((unsigned long)" + rv(BO->getRHS()) + ")))";
+            }
             std::string r = "(" + rv(BO->getLHS()) + " " + op + " " + rv(BO->getRHS()) + ")";
             if(BO->isComparisonOp() || BO->isLogicalOp()) r = "((_Bool)" + r + ")";
             return r;
